@@ -54,6 +54,15 @@ impl NetShared {
             p2p_static: std::sync::OnceLock::new(),
         })
     }
+    /// A control handle of a tentacle service that is never run: open / close requests of
+    /// the relay protocol are queued and dropped (the plan's RelayOpen / RelayClose actions
+    /// play the network's part).
+    pub fn install_p2p_control(&self) {
+        let service = p2p::builder::ServiceBuilder::default().build(());
+        let control: ServiceControl = service.control().clone().into();
+        let _ = self.p2p_static.set(control);
+        std::mem::forget(service);
+    }
     pub fn drain(&self) -> Vec<Out> {
         std::mem::take(&mut *self.outbox.lock().unwrap_or_else(|e| e.into_inner()))
     }
